@@ -303,6 +303,17 @@ Theorem C06_consumer_close_stops_all :
 Proof. intros sp k c Hv Hns Hk. apply chain_nosav_consumer_close; auto. Qed.
 Print Assumptions C06_consumer_close_stops_all.
 
+(* ... and when NOTHING fails, every maximal run of such a chain ends with all threads finished and the caller holding
+   all N chunks in order: no schedule deadlocks, whatever the capacities (>= 1), lazy or eager.  (The caller reads the
+   end marker only after every stage has closed its mailbox — closed (j+1) -> closed j — so cleanup() joins finished
+   threads only and the final saver check has nothing to report.) *)
+Theorem C06_no_failure_terminates_chain :
+  forall sp : chain_spec,
+    valid_chain sp -> ch_nsav sp = repeat 0 (length (ch_caps sp)) ->
+    completes (chain_net sp true None None) (chain_init sp true None None) (chain_main sp) (ch_N sp).
+Proof. intros sp Hv Hns. apply chain_nosav_completes; auto. Qed.
+Print Assumptions C06_no_failure_terminates_chain.
+
 (* an instance far outside what the explorer can enumerate: 6 stages, 40 chunks, mixed capacities, lazy, through
    get_iter; stage 3 fails at chunk 17 *)
 Example C06_chain_instance_6x40 :
@@ -359,7 +370,9 @@ Definition C06_full_consumer_close_stops_all : Prop :=
                            (chain_main sp) (ch_N sp) (if ch_relay sp then C_OUTSIDE else C_GENEXIT).
 
 (* without failures every maximal schedule ends with everything delivered and saved; chains and fan-outs have no
-   chunk lag (every stage is 1:1), so any capacity >= 1 is enough *)
+   chunk lag (every stage is 1:1), so any capacity >= 1 is enough
+   (PROVED above for chains without savers: C06_no_failure_terminates_chain; with savers, and for fan-outs, it is
+   this Definition, not proved in general) *)
 Definition C06_full_no_failure_terminates : Prop :=
   (forall sp : chain_spec, valid_chain sp ->
      completes (chain_net sp true None None) (chain_init sp true None None) (chain_main sp) (ch_N sp)) /\
